@@ -830,6 +830,7 @@ def fold_variant(t, mask, rng, ctx=None):
     """ctx: None (the value is the result), 'subr' (the value subscripts a load), 'subw' (it subscripts a store)"""
     setup, gvals, lvals = [], {}, {}
     e = build_tree(t, mask, rng, [0], setup, gvals, lvals)
+    e2 = build_tree(t, mask, rng, [0], setup, gvals, lvals) if ctx == 'pair' else None       # the same tree again (its own spellings)
     gv = sorted({s[1] for s in setup if s[0] == 'gvar'})
     ss = []
     used_arr = {}
@@ -854,11 +855,15 @@ def fold_variant(t, mask, rng, ctx=None):
         use = [ass(idx('t16', num(i)), num(0)) for i in range(16)] + [ass(idx('t16', e), num(9)), ass(var('res'), num(0)), ass(var('j'), num(0)),
                whl(bi('<', var('j'), num(16)), seq([iff(bi('=', idx('t16', var('j')), num(9)), ass(var('res'), bi('+', var('res'), bi('+', var('j'), num(1)))), skip()),
                                                     ass(var('j'), bi('+', var('j'), num(1)))]))]
+    elif ctx == 'pair':
+        # a store through the subscript into one array, directly followed by a load through the same subscript from ANOTHER array
+        use = [ass(idx('t16', num(i)), num(100 + i)) for i in range(16)] + [ass(idx('u16', num(i)), num(50 + i)) for i in range(16)] + \
+              [ass(idx('t16', e), num(9)), ass(var('res'), idx('u16', e2)), ass(idx('u16', e), num(7)), ass(var('res'), bi('+', var('res'), idx('t16', e2)))]
     else:
         use = [ass(var('res'), e)]
     procs = {'id': lib_procs()['id'], 'tk': tk,
              'main': proc(False, [], ['res', 'j'] + lv, seq([ass(var('cn'), num(0))] + ss + use + [putc(var('cn')), exit_(var('res'))]), lvals)}
-    return program(gv + ['cn'], {'a': 4, 't16': 16}, procs, gvals, None, ['id', 'tk', 'main'])
+    return program(gv + ['cn'], {'a': 4, 't16': 16, 'u16': 16}, procs, gvals, None, ['id', 'tk', 'main'])
 
 
 def fold_trees(rng, tier):
@@ -923,6 +928,7 @@ def fold_trees(rng, tier):
                 if 0 <= v < 16:
                     out.append(('subr:%s:%d:%d' % (op, a, b), ('bin', op, ('leaf', a), ('leaf', b))))
                     out.append(('subw:%s:%d:%d' % (op, a, b), ('bin', op, ('leaf', a), ('leaf', b))))
+                    out.append(('pair:%s:%d:%d' % (op, a, b), ('bin', op, ('leaf', a), ('leaf', b))))
                     for c in (1, 3):
                         for op2 in ('+', '-'):
                             w = v + c if op2 == '+' else v - c
@@ -931,6 +937,8 @@ def fold_trees(rng, tier):
                                 w2 = c + v if op2 == '+' else c - v
                                 if 0 <= w2 < 16:
                                     out.append(('subw:%s%s:r:%d:%d:%d' % (op, op2, a, b, c), ('bin', op2, ('leaf', c), ('bin', op, ('leaf', a), ('leaf', b)))))
+    for a in (0, 1, 2, 7, 15):
+        out.append(('pair:leaf:%d' % a, ('leaf', a)))
     n2, n3 = (1500, 500) if tier == "quick" else (60000, 40000)
     for i in range(n2):
         out.append(('d2:%d' % i, itree(2) if rng.random() < 0.6 else btree(2)))
@@ -954,7 +962,7 @@ def fold_cases(rng, tier):
                 if m not in seen:
                     seen.add(m); masks.append(m)
         for mi, m in enumerate(masks):
-            P = fold_variant(t, m, rng, ctx=tid.split(':')[0] if tid.startswith(('subr:', 'subw:')) else None)
+            P = fold_variant(t, m, rng, ctx=tid.split(':')[0] if tid.startswith(('subr:', 'subw:', 'pair:')) else None)
             if P is None:
                 continue
             cases.append({'id': '%s/m%s' % (tid, ''.join('r' if i in m else 'c' for i in range(n))), 'group': tid,
